@@ -6,8 +6,11 @@ C21-subst   Replacer is lifted as a whole pass on the structured expression fami
             result must equal the meaning of the input with the mapped terminals' symbols substituted by
             the images' entries; expressions without mapped terminals are returned unchanged (same object).
 C21-shape   Replacer.__init__ lifted: a shape-changing mapping raises.
-C21-deriv   the coefficient_derivative handler raises, and replace() expands derivatives first when a
-            CoefficientDerivative is present (AST facts).
+C21-deriv   replace() itself interpreted from source (with expand_derivatives = algebra lowering + apply_derivatives)
+            on expressions holding pending Gateaux derivatives: the result means the derivative with the mapped
+            terminals substituted afterwards - also when an image depends on the differentiation variable - or
+            the call is refused; never a substitution into the operand of a pending derivative
+            (sa/rules/c21_compose.py).
 C21-truth   no handler of Replacer uses the truthiness of a looked-up image (`mapping.get(o) or ...`) on a
             path that handles plain expressions (Zero is falsy); the two base-form-operator handlers that do
             are reported as information.
@@ -134,19 +137,11 @@ def run(ctx) -> Report:
             rep.violation("C21-shape", prog.lookup(cls, "__init__"), f"Replacer({mdesc})", f"a shape-changing mapping {mdesc} is accepted")
         except LiftRaise:
             rep.ok("C21-shape", prog.lookup(cls, "__init__"), f"mapping {mdesc} rejected")
-    # derivatives
+    # derivatives: replace() interpreted on expressions with pending derivatives (sa/rules/c21_compose.py)
     tab = ctx.disp.mf_table(cls)
-    cd = tab.get("CoefficientDerivative")
-    if cd is not None and any(isinstance(st, ast.Raise) for st in cd.func.node.body):
-        rep.ok("C21-deriv", cd.func, "CoefficientDerivative inside replace raises")
-    else:
-        rep.violation("C21-deriv", cls, "coefficient_derivative handler", "an unexpanded CoefficientDerivative is substituted into instead of being rejected")
-    rfn = prog.get_function("ufl.algorithms.replace", "replace")
-    src = norm(rfn.node)
-    if "has_exact_type(e, CoefficientDerivative)" in src and "expand_derivatives(e)" in src:
-        rep.ok("C21-deriv", rfn, "replace() expands derivatives before substituting")
-    else:
-        rep.violation("C21-deriv", rfn, "derivative expansion", "replace() no longer expands pending derivatives before substituting")
+    from .c21_compose import compose_replace
+
+    compose_replace(ctx, rep, substitute)
     # truthiness of looked-up images
     for hname, fi in cls.methods.items():
         for n in ast.walk(fi.node):
